@@ -7,7 +7,8 @@ from vlib.harness import Violation
 PID = "C09"
 RULE = ("for every row of pytezos' base58 table (enumerated exhaustively): payloads all-zero / all-ones / random of the "
         "row's length, payloads containing the binary prefix of their own or another kind, runs of zeros at either end (the two extremes prove prefix+length for all 2^(8n) payloads by monotonicity of base58); "
-        "corrupted strings: one character changed/dropped/added, human prefix swapped with another row's, re-encoded "
+        "payloads whose encoding begins with another kind's longer human prefix (block hashes reading BLpk.. / BLsk.. / BLsig..); "
+        "corrupted strings: one character changed/dropped/added or replaced by its look-alike outside the alphabet (0 O l I), human prefix swapped with another row's, re-encoded "
         "under a neighbouring binary prefix with a valid checksum, payload length +-1 with valid checksum, trailing four bytes "
         "related to the checksum but different (other windows of the double-SHA256 digest, single SHA256, reversed, rotated), random "
         "base58 strings. Oracle: own base58check + Tezos prefix registry: encode has the documented prefix/length "
@@ -136,12 +137,19 @@ def replay(case):
 
 
 def _mutations(draw, s, rows):
-    kind = draw(st.sampled_from(["chg", "chg", "drop", "add", "swap-human", "near-bin", "len+1", "len-1", "resum", "pad", "pad", "hex", "cksum", "cksum"]))
+    kind = draw(st.sampled_from(["chg", "chg", "drop", "add", "swap-human", "near-bin", "len+1", "len-1", "resum", "pad", "pad", "hex", "cksum", "cksum", "alike", "alike"]))
     raw = rc.b58check_decode(s)
     if kind == "chg":
         i = draw(st.integers(0, len(s) - 1))
         c = draw(st.sampled_from(rc.ALPHABET + "0OIl"))
         return kind, s[:i] + c + s[i + 1:]
+    if kind == "alike":  # a character replaced by its look-alike outside the alphabet (0 / O for o, l / I for 1): not base58 at all
+        pos = [i for i, c in enumerate(s) if c in "o1"]
+        if pos:
+            i = draw(st.sampled_from(pos))
+            return kind, s[:i] + draw(st.sampled_from("0O" if s[i] == "o" else "lI")) + s[i + 1:]
+        i = draw(st.integers(0, len(s) - 1))
+        return kind, s[:i] + draw(st.sampled_from("0OIl")) + s[i + 1:]
     if kind == "cksum":  # four trailing bytes related to the right checksum, but not it
         import hashlib
         d1 = hashlib.sha256(raw).digest()
@@ -195,8 +203,37 @@ def _mutations(draw, s, rows):
     return kind, rc.b58check_encode(bytes(b))
 
 
+LOOKALIKE = {}
+
+
+def _lookalike_payloads(rows):
+    """For every row whose human prefix is a proper prefix of another row's: payloads whose valid encoding under this row starts with
+    that longer prefix (e.g. block hashes B... that read BLpk...). Found by fixing the leading characters and solving for the number."""
+    for i, (human, elen, binp, plen, kind) in enumerate(rows):
+        out = []
+        for (h2, e2, b2, p2, k2) in rows:
+            if h2 != human and h2.startswith(human) and len(h2) <= elen:
+                lo = rc.b58decode(h2 + "1" * (elen - len(h2)))
+                hi = rc.b58decode(h2 + "z" * (elen - len(h2)))
+                if lo is None or hi is None:
+                    continue
+                total = len(binp) + plen + 4
+                lo_i, hi_i = int.from_bytes(lo.rjust(total, b"\x00"), "big"), int.from_bytes(hi.rjust(total, b"\x00"), "big")
+                for frac in (0.1, 0.37, 0.5, 0.83):
+                    raw = (lo_i + int((hi_i - lo_i) * frac)).to_bytes(total, "big")
+                    if raw[:len(binp)] != binp:
+                        continue
+                    payload = raw[len(binp):len(binp) + plen]
+                    if rc.b58check_encode(binp + payload).startswith(h2):
+                        out.append(payload)
+        if out:
+            LOOKALIKE[i] = out
+
+
 def run(h):
     rows = table()
+    _lookalike_payloads(rows)
+    h.coverage_extra["lookalike_payloads"] = {rows[i][0]: len(v) for i, v in LOOKALIKE.items()}
     # (d) + registry comparison once
     h.run_enum([{"mode": "table"}], lambda c, s: (oracle(c), s.case(c, True, "table"))[1], shards=1)
 
@@ -205,8 +242,10 @@ def run(h):
 
         @st.composite
         def s(draw):
-            mode = draw(st.integers(0, 7))
-            if mode == 0:
+            mode = draw(st.integers(0, 8))
+            if mode == 8 and LOOKALIKE.get(i):   # the encoding of this payload begins with the (longer) human prefix of another kind
+                p = draw(st.sampled_from(LOOKALIKE[i]))
+            elif mode == 0:
                 p = b"\x00" * plen
             elif mode == 1:
                 p = b"\xff" * plen
@@ -266,6 +305,8 @@ def run(h):
     ext = [{"mode": "valid", "row": i, "payload": (b * rows[i][3]).hex()} for i in range(len(rows))
            for b in (b"\x00", b"\xff")]
     h.run_enum(ext, prop_valid, shards=4)
+    # ... and the payloads whose encoding starts with another kind's human prefix
+    h.run_enum([{"mode": "valid", "row": i, "payload": pl.hex()} for i, v in LOOKALIKE.items() for pl in v], prop_valid, shards=2)
 
     def corrupt_for(i):
         human, elen, binp, plen, kind = rows[i]
